@@ -133,6 +133,10 @@ def classify(facts, body, src):
                     problems.append("collect into %s at %s" % (ty, c.span))
             elif c.matches(["Extend::extend", "Vec::extend", "HashSet::extend", "HashMap::extend", "BTreeSet::extend", "BTreeMap::extend"]):
                 ty = term_ty(b, c.args[0])
+                if ty == "?":
+                    # the receiver is a field or another place without a local of its own: the impl the call resolved to names the type
+                    m_ = re.match(r"^<(.+) as std::iter::Extend<", c.callee_args or "")
+                    ty = m_.group(1) if m_ else ty
                 k = container_kind(ty)
                 if k == "set":
                     pass
